@@ -290,8 +290,13 @@ class MathShim:
 
     @staticmethod
     def isclose(a, b, rel_tol=1e-09, abs_tol=0.0):
-        if is_sym(a) or is_sym(b):
-            raise NotImplementedError("isclose on symbolic values")
+        if is_sym(a) or is_sym(b) or is_sym(rel_tol) or is_sym(abs_tol):
+            # |a-b| <= max(rel_tol * max(|a|, |b|), abs_tol), over the reals
+            a, b = SymReal.of(a), SymReal.of(b)
+            d = abs(a - b)
+            big = max_shim(abs(a), abs(b))
+            lim = max_shim(SymReal.of(rel_tol) * big, SymReal.of(abs_tol))
+            return d <= lim
         return _math.isclose(a, b, rel_tol=rel_tol, abs_tol=abs_tol)
 
 
@@ -409,6 +414,9 @@ def std_overrides(real_tower):
         "bool": bool_shim,
         "math": MathShim(real_tower),
     }
+    if real_tower:
+        d["sqrt"] = d["math"].sqrt          # ``from math import sqrt, isclose``
+        d["isclose"] = d["math"].isclose
     from .reshim import ReShim
     d["re"] = ReShim()          # only matters for modules that import re (CPython's matcher rejects symbolic strings)
     return d
